@@ -4,6 +4,12 @@ NOTES = "All checks: bin/check <ID> --tier quick|thorough [--replay file]; exit 
 NOT_APPLICABLE = {}
 _EVAL_NOTE = "Program-level values of 32/64-bit types are restricted to magnitude < 2^30 (TLC integers); runs outside the modelled fragment are counted as out_of_model and not judged. The typed AST is the checker's (parser desugarings such as <= and op-assignment are already applied), so duplicated evaluation introduced by the parser is not visible in this direction. Trusted: the projection typed AST -> JSON (harness/src/proj.rs), JSON value -> Literal conversion, TLC."
 CHECKS = {
+    "C06": {
+        "text": "HashOrder.tla models the hash-map iteration sites of the compiler with the iteration order as a nondeterministic choice and TLC checks OrderIndependence of what is emitted (with the superseded order-dependent schemes as refuted negative controls); order-sensitive program shapes, corpus programs and generated programs are compiled repeatedly in fresh threads and several processes with both option settings, and every compilation is validated by Trace_Determinism.tla (a state machine that remembers the first digest per key).",
+        "design_ref": "DESIGN.md §5 C06",
+        "note": "Hash seeds cannot be enumerated or injected without rewriting lines in /repo: the implementation half is sampling over seeds (6-12 compilations x 2-6 processes per program and option). The digest (FNV over party sizes, gates, outputs) is computed by the harness.",
+        "technique": "TLA+ model of iteration-order nondeterminism checked by TLC + TLC trace validation of repeated real compilations",
+    },
     "C12": {
         "text": "ConstEval.tla defines the value of a top-level constant (wrapping arithmetic of the declared type at every sub-expression, references to earlier constants); Gen_Consts.tla enumerates declaration shapes x boundary assignments x fault modes of the supplied map and emits the expected values or the exact set of constants an error must name; the harness compiles every case six times with fresh maps, evaluates it and compares with the expected bits, and with the program in which every constant is replaced by its value.",
         "design_ref": "DESIGN.md §5 C12",
